@@ -98,6 +98,8 @@ PINS = [
      'the token-stream writers, the name factory and the module functions of lua.py (Model/Minifier.v, Model/Names.v, Model/P8scii.v, Model/Header.v)'),
     ('luacontainer', 'pico8.lua.lua', 'pico8/lua/lua.py', {'Lua'}, False, 'LuaContainerPins',
      'the Lua container alone (token and character counts, title / byline, from_lines / to_lines wiring) for the properties that do not stand on the AST writers'),
+    ('walker', 'pico8.lua.lua', 'pico8/lua/lua.py', {'BaseASTWalker'}, False, 'WalkerPins',
+     'the generic tree walk alone (what build\'s RequireWalker inherits), for the properties that do not stand on the AST writers'),
     ('build', 'pico8.build.build', 'pico8/build/build.py', None, True, 'BuildPins',
      'p8tool build: region selection, require() evaluation, package embedding (Model/Build*.v, Model/Req*.v, Model/LoadPath.v)'),
     ('p8', 'pico8.game.formatter.p8', 'pico8/game/formatter/p8.py', None, True, 'P8Pins',
